@@ -4,7 +4,7 @@
    files; an event is "process p makes its next access to shared state", a schedule is an arbitrary list of process
    numbers (a step that is not enabled - a lock that is held - is a stutter).  Texts are single-line (no \n, no \r). *)
 From Coq Require Import ZArith List Bool Arith.
-From WPU Require Import Common.Val Model.Pool Model.Storage Proofs.StorageP.
+From WPU Require Import Common.Val Model.Pool Model.Storage Proofs.StorageP Proofs.StorageLiveP.
 Import ListNotations.
 Open Scope nat_scope.
 
@@ -88,6 +88,27 @@ Theorem C14_flush : forall s, let s' := sflush s in
   ss_index s' = [] /\ ss_files s' = [] /\ ss_cnt s' = 0 /\ ss_wf s' = 0 /\ ss_texts s' = [] /\ (forall g, ~ stored (ss_index s') g).
 Proof. exact flush_resets. Qed.
 Print Assumptions C14_flush.
+
+(* every operation completes: while some process still has an operation to run some process can make a step (the lock is
+   always released by its holder), every step decreases a measure, hence under every scheduler that picks a process that
+   can move whenever there is one all programs run to completion *)
+Theorem C14_no_deadlock : forall presize progs sched, progs_ok progs ->
+  let s := srun (sinit presize progs) sched in
+  (exists p pr, nth_error (ss_procs s) p = Some pr /\ p_todo pr <> []) -> exists q, sstep s q <> None.
+Proof. intros presize progs sched Ok s. apply storage_no_deadlock. apply sall_run. exact Ok. Qed.
+Print Assumptions C14_no_deadlock.
+
+Theorem C14_measure : forall presize progs sched p s', progs_ok progs ->
+  let s := srun (sinit presize progs) sched in sstep s p = Some s' -> smu s' < smu s.
+Proof. intros presize progs sched p s' Ok s. apply smu_step. apply sall_run. exact Ok. Qed.
+Print Assumptions C14_measure.
+
+Theorem C14_terminates : forall presize progs pick, progs_ok progs ->
+  (forall s, (exists q, sstep s q <> None) -> sstep s (pick s) <> None) ->
+  let s := sdrive pick (smu (sinit presize progs)) (sinit presize progs) in
+  SAll s /\ forall p pr, nth_error (ss_procs s) p = Some pr -> p_todo pr = [].
+Proof. exact storage_terminates. Qed.
+Print Assumptions C14_terminates.
 
 (* non-vacuity: two writers (gap, reversed order, duplicate), a concurrent reader, pre-sized index; a concrete interleaving *)
 Example C14_concrete :
